@@ -1,0 +1,87 @@
+// Verification hooks (read-only observation + clock override).
+// Compiled only with `--cfg lsm_verif`; not part of the public API.
+
+use crate::{
+    memtable::Memtable, version::SuperVersion, AbstractTree, SeqNo, Table, TableId, Tree,
+};
+use std::sync::{Arc, Mutex, OnceLock};
+
+use crate::version::Version;
+
+/// One retained super version, oldest first in [`history`].
+pub struct SvView {
+    pub seqno: SeqNo,
+    pub active: Arc<Memtable>,
+    /// Sealed memtables in stored order (oldest first)
+    pub sealed: Vec<Arc<Memtable>>,
+    pub version: Version,
+}
+
+fn view(sv: &SuperVersion) -> SvView {
+    SvView {
+        seqno: sv.seqno,
+        active: sv.active_memtable.clone(),
+        sealed: sv.sealed_memtables.iter().cloned().collect(),
+        version: sv.version.clone(),
+    }
+}
+
+/// Snapshot of the version history (every retained super version, oldest first).
+pub fn history(tree: &Tree) -> Vec<SvView> {
+    #[expect(clippy::expect_used, reason = "lock is expected to not be poisoned")]
+    let lock = tree.version_history.read().expect("lock is poisoned");
+    lock.verif_iter().map(view).collect()
+}
+
+/// The super version a snapshot read at `seqno` resolves to.
+pub fn version_for_snapshot(tree: &Tree, seqno: SeqNo) -> SvView {
+    view(&tree.get_version_for_snapshot(seqno))
+}
+
+/// Stored (local, un-shifted) sequence number bounds of a table.
+pub fn table_seqnos(table: &Table) -> (SeqNo, SeqNo) {
+    table.verif_seqnos()
+}
+
+/// Table ids currently hidden by running compactions.
+pub fn hidden_ids(tree: &Tree, candidates: &[TableId]) -> Vec<TableId> {
+    #[expect(clippy::expect_used, reason = "lock is expected to not be poisoned")]
+    let state = tree.compaction_state.lock().expect("lock is poisoned");
+    candidates
+        .iter()
+        .copied()
+        .filter(|id| state.hidden_set().is_hidden(*id))
+        .collect()
+}
+
+/// Next ids the tree would hand out: (table, blob file, memtable).
+pub fn counters(tree: &Tree) -> (u64, u64, u64) {
+    (
+        tree.table_id_counter.get(),
+        tree.blob_file_id_counter.get(),
+        tree.memtable_id_counter.get(),
+    )
+}
+
+static NOW_OVERRIDE: OnceLock<Mutex<Option<std::time::Duration>>> = OnceLock::new();
+
+/// Overrides `time::unix_timestamp` (None = real clock).
+pub fn set_clock(value: Option<std::time::Duration>) {
+    let cell = NOW_OVERRIDE.get_or_init(|| Mutex::new(None));
+    #[expect(clippy::expect_used, reason = "lock is expected to not be poisoned")]
+    {
+        *cell.lock().expect("lock is poisoned") = value;
+    }
+}
+
+pub(crate) fn clock_override() -> Option<std::time::Duration> {
+    let cell = NOW_OVERRIDE.get()?;
+    #[expect(clippy::expect_used, reason = "lock is expected to not be poisoned")]
+    let v = *cell.lock().expect("lock is poisoned");
+    v
+}
+
+#[allow(unused)]
+fn _assert_traits(tree: &Tree) -> usize {
+    tree.table_count()
+}
